@@ -236,16 +236,16 @@ theorem runOp_normalised (doc : Document) (inputs : Vars) (w : World) (fuel : Na
     (hmem : Definition.operation op name vars dirs sel loc ∈ doc.defs) (hlex : LexSet sel)
     (hu : ∀ v, getVariableValues s vars inputs = .ok v →
       HUAll ⟨s, doc.fragments, v, w⟩ root (collect ⟨s, doc.fragments, v, w⟩ root sel ([], [])).1) :
-    runOp s doc.fragments ((normalizeOperation s root (docVarNames doc) (.operation op name vars dirs sel loc)).2 ++ inputs) w fuel
-        (normalizeOperation s root (docVarNames doc) (.operation op name vars dirs sel loc)).1 =
+    runOp s doc.fragments ((normalizeOperation s keep root (docVarNames doc) (.operation op name vars dirs sel loc)).2 ++ inputs) w fuel
+        (normalizeOperation s keep root (docVarNames doc) (.operation op name vars dirs sel loc)).1 =
       runOp s doc.fragments inputs w fuel (.operation op name vars dirs sel loc) := by
   -- the walk and its name invariant
   have h0 : NamesOK (initState vars (docVarNames doc)) := by
     unfold NamesOK
     exact ⟨by intro e he; simp [initState] at he, by simp [initState]⟩
   obtain ⟨hnames, htaken⟩ := normSet_namesOK s sel root (initState vars (docVarNames doc)) h0
-  generalize hst : (normSet s root sel (initState vars (docVarNames doc))).2 = st at hnames htaken
-  generalize hsel' : (normSet s root sel (initState vars (docVarNames doc))).1 = sel'
+  generalize hst : (normSet s keep root sel (initState vars (docVarNames doc))).2 = st at hnames htaken
+  generalize hsel' : (normSet s keep root sel (initState vars (docVarNames doc))).1 = sel'
   have hfresh : ∀ e ∈ st.entries, e.name ∉ userVarNames vars ∧ e.name ∉ docVarNames doc := by
     intro e he
     have := (hnames.1 e he).1
@@ -380,18 +380,18 @@ theorem normalized_transparent_core (doc doc' : Document) (opName : String) (inp
             | operation op name vars dirs sel loc =>
               have hroot' : s.rootFor op.toString = some root := hroot
               -- shape of the normalised operation
-              have hshape : (normalizeOperation s root (docVarNames doc) (.operation op name vars dirs sel loc)).1 =
-                  .operation op name (vars ++ (normSet s root sel (initState vars (docVarNames doc))).2.entries.map mkVarDef) dirs
-                    (normSet s root sel (initState vars (docVarNames doc))).1 loc := rfl
+              have hshape : (normalizeOperation s (fragKeys doc) root (docVarNames doc) (.operation op name vars dirs sel loc)).1 =
+                  .operation op name (vars ++ (normSet s (fragKeys doc) root sel (initState vars (docVarNames doc))).2.entries.map mkVarDef) dirs
+                    (normSet s (fragKeys doc) root sel (initState vars (docVarNames doc))).1 loc := rfl
               have hfrags : doc'.fragments = doc.fragments := by
                 rw [← hdoc', fragments_eq, fragments_eq]
                 exact filterMap_replaceAt fragOf doc.defs i _ _ hdef rfl (by rw [hshape]; rfl)
               have hall := all2_replaceAt (.operation op name vars dirs sel loc)
-                (normalizeOperation s root (docVarNames doc) (.operation op name vars dirs sel loc)).1 doc.defs i hdef
+                (normalizeOperation s (fragKeys doc) root (docVarNames doc) (.operation op name vars dirs sel loc)).1 doc.defs i hdef
               rw [hshape] at hall
               have hdefs' : doc'.defs = replaceAt doc.defs i
-                  (.operation op name (vars ++ (normSet s root sel (initState vars (docVarNames doc))).2.entries.map mkVarDef) dirs
-                    (normSet s root sel (initState vars (docVarNames doc))).1 loc) := by
+                  (.operation op name (vars ++ (normSet s (fragKeys doc) root sel (initState vars (docVarNames doc))).2.entries.map mkVarDef) dirs
+                    (normSet s (fragKeys doc) root sel (initState vars (docVarNames doc))).1 loc) := by
                 rw [← hdoc', hshape]
               rw [execute_eq, execute_eq, hfrags]
               unfold selectOperation
@@ -465,8 +465,8 @@ theorem norm_facts (doc : Document) (inputs : Vars) (w : World)
     (op : OpType) (name : Option Name) (vars : List VarDef) (dirs : List Directive) (sel : SelectionSet) (loc : Loc)
     (root : String) (hmem : Definition.operation op name vars dirs sel loc ∈ doc.defs) (hlex : LexSet sel)
     (v : Vars) (hv : getVariableValues s vars inputs = .ok v) :
-    let st := (normSet s root sel (initState vars (docVarNames doc))).2
-    let sel' := (normSet s root sel (initState vars (docVarNames doc))).1
+    let st := (normSet s (fragKeys doc) root sel (initState vars (docVarNames doc))).2
+    let sel' := (normSet s (fragKeys doc) root sel (initState vars (docVarNames doc))).1
     let c : Ctx := ⟨s, doc.fragments, v, w⟩
     let vars' := extendVars s st.entries v
     getVariableValues s (vars ++ st.entries.map mkVarDef) (st.synth ++ inputs) = .ok vars' ∧
@@ -492,7 +492,7 @@ theorem norm_facts (doc : Document) (inputs : Vars) (w : World)
     apply defVars_subset doc _ hmem
     simp only [defVars, List.mem_append]
     exact Or.inr hx
-  have hwalk := normSet_rel s hcc hsch v vars' sel root (initState vars (docVarNames doc)) st.entries
+  have hwalk := normSet_rel (keep := fragKeys doc) s hcc hsch v vars' sel root (initState vars (docVarNames doc)) st.entries
     (by intro e he; simp [initState] at he) hlex (fun x hx => hAg x (hsetvars x hx))
     ⟨[], by simp [st]⟩ hre
   obtain ⟨hrel, hesOK, _⟩ := hwalk
@@ -555,19 +555,19 @@ theorem execUniform_normalised (doc doc' : Document) (opName : String) (inputs s
             cases opDef with
             | operation op name vars dirs sel loc =>
               have hroot' : s.rootFor op.toString = some root := hroot
-              have hshape : (normalizeOperation s root (docVarNames doc) (.operation op name vars dirs sel loc)).1 =
-                  .operation op name (vars ++ (normSet s root sel (initState vars (docVarNames doc))).2.entries.map mkVarDef) dirs
-                    (normSet s root sel (initState vars (docVarNames doc))).1 loc := rfl
-              have hsyn : synth = (normSet s root sel (initState vars (docVarNames doc))).2.synth := hsynth.symm
+              have hshape : (normalizeOperation s (fragKeys doc) root (docVarNames doc) (.operation op name vars dirs sel loc)).1 =
+                  .operation op name (vars ++ (normSet s (fragKeys doc) root sel (initState vars (docVarNames doc))).2.entries.map mkVarDef) dirs
+                    (normSet s (fragKeys doc) root sel (initState vars (docVarNames doc))).1 loc := rfl
+              have hsyn : synth = (normSet s (fragKeys doc) root sel (initState vars (docVarNames doc))).2.synth := hsynth.symm
               have hfrags : doc'.fragments = doc.fragments := by
                 rw [← hdoc', fragments_eq, fragments_eq]
                 exact filterMap_replaceAt fragOf doc.defs i _ _ hdef rfl (by rw [hshape]; rfl)
               have hall := all2_replaceAt (.operation op name vars dirs sel loc)
-                (normalizeOperation s root (docVarNames doc) (.operation op name vars dirs sel loc)).1 doc.defs i hdef
+                (normalizeOperation s (fragKeys doc) root (docVarNames doc) (.operation op name vars dirs sel loc)).1 doc.defs i hdef
               rw [hshape] at hall
               have hdefs' : doc'.defs = replaceAt doc.defs i
-                  (.operation op name (vars ++ (normSet s root sel (initState vars (docVarNames doc))).2.entries.map mkVarDef) dirs
-                    (normSet s root sel (initState vars (docVarNames doc))).1 loc) := by
+                  (.operation op name (vars ++ (normSet s (fragKeys doc) root sel (initState vars (docVarNames doc))).2.entries.map mkVarDef) dirs
+                    (normSet s (fragKeys doc) root sel (initState vars (docVarNames doc))).1 loc) := by
                 rw [← hdoc', hshape]
               intro op2 name2 vars2 dirs2 sel2 loc2 root2 v2 hsel2 hroot2 hv2
               unfold selectOperation at hsel2
@@ -635,7 +635,7 @@ theorem execUniform_normalised (doc doc' : Document) (opName : String) (inputs s
                           exact ⟨by intro e he; simp [initState] at he, by simp [initState]⟩
                         obtain ⟨hnames, htaken⟩ := normSet_namesOK s sel root2 (initState vars (docVarNames doc)) h0
                         have : getVariableValues s
-                            (vars ++ (normSet s root2 sel (initState vars (docVarNames doc))).2.entries.map mkVarDef)
+                            (vars ++ (normSet s (fragKeys doc) root2 sel (initState vars (docVarNames doc))).2.entries.map mkVarDef)
                             (synth ++ inputs) = .error e := by
                           unfold getVariableValues at hv ⊢
                           rw [getVariableValuesGo_append]
